@@ -109,7 +109,9 @@ func C12MutList(t *rapid.T, label string, xs, donor [][]byte) ([][]byte, string)
 // MutateBytes, which usually breaks the syntax): a string / object / number replaced by null, a
 // character of a base64 or hex string replaced by another one of the same alphabet, a digit
 // changed, an array element duplicated or dropped. With probability 1/4 it falls back to
-// MutateBytes. The returned kind names the tampering.
+// MutateBytes. The returned kind names the tampering. Numbers stay within +-2^40: verifiers whose
+// work grows with a stated range are judged by fixed, allocation-bounded witnesses, not by feeding
+// them 2^63 (which would exhaust the machine's memory on a tree without the guard).
 func C12MutateJSON(t *rapid.T, label string, in []byte) ([]byte, string) {
 	if len(in) == 0 || rapid.IntRange(0, 3).Draw(t, label+".raw") == 0 {
 		out, k := MutateBytes(t, label+".bytes", in, nil)
@@ -220,7 +222,7 @@ func C12MutateJSON(t *rapid.T, label string, in []byte) ([]byte, string) {
 			if kind == "num-null" {
 				return replace(n, []byte("null")), kind
 			}
-			v := rapid.SampledFrom([]string{"0", "1", "-1", "2", "7", "255", "65536", "2147483647", "2147483648", "4294967295", "4294967296", "9223372036854775807", "-9223372036854775808"}).Draw(t, label+".v")
+			v := rapid.SampledFrom([]string{"0", "1", "-1", "2", "7", "255", "65536", "2147483647", "2147483648", "4294967295", "4294967296", "1099511627776", "-1099511627776"}).Draw(t, label+".v")
 			return replace(n, []byte(v)), kind
 		}
 	}
